@@ -90,7 +90,17 @@ def run(ctx):
     wcases = []
     for b4, b6 in [(8, 16), (16, 8), (0, 64), (24, 0), (8, 8), (1, 127)]:
         wcases.append(textgen.pipe(wl, flags="a", salt=rng.choice(ipgen.SALTS), b4=b4, b6=b6))
-    wm, wi = ctx.correspond(wcases, project=lambda c, o: textgen.norm(o), label="wiring-host-bits")
+    def wproject(c, o):
+        """per address token of each line: are the trailing host bits (b4 for IPv4, b6 for IPv6) of input and output equal"""
+        if o.startswith("RAISED"):
+            return "RAISED"
+        b4, b6 = int(c[8]), int(c[9])
+        res = []
+        for l, ol in zip(wl, textgen.outlines(o)):
+            res.append([(v1 & ((1 << b4) - 1)) == (v2 & ((1 << b4) - 1)) for (_, _, v1), (_, _, v2) in zip(linegen.v4_tokens(l), linegen.v4_tokens(ol))])
+            res.append([(v1 & ((1 << b6) - 1)) == (v2 & ((1 << b6) - 1)) for (_, _, v1, _), (_, _, v2, _) in zip(linegen.v6_tokens(l), linegen.v6_tokens(ol))])
+        return res
+    wm, wi = ctx.correspond(wcases, project=wproject, label="wiring-host-bits")
     for c, out in zip(wcases, wi):
         b4, b6 = int(c[8]), int(c[9])
         if out.startswith("RAISED"):
